@@ -1,3 +1,7 @@
 //! Shared harness code: line protocol helpers, hex, panic capture.
 pub mod util;
 pub mod astproj;
+pub mod cfgwalk;
+pub mod mockpg;
+pub mod client;
+pub mod pooler;
